@@ -24,7 +24,7 @@ PROPS = {
              "plus values padded to 20300..20470 characters so replacements reach the 20 kB limit; HOME set/unset/empty, 7..12 built-ins; "
              "the argument is an exact CONFIG_BUFF-byte simulated block; oracle = reference expander written from the stated rules (value checked unless a don't-care construct occurs), NUL-termination and length, "
              "and a second execution of the whole plan under different heap and stack garbage that must give byte-identical results; Since rounds 10-12: the %name ) spelling and variable-deleting spellings (value don't-care), fdopen()/fchmod() refusals, built-ins registered between expansions. distinct = distinct trace hash; non-trivial = >= 3 ops",
-             probes=["fdopen_failed", "fchmod_failed", "value_checked", "value_dont_care", "dollar_mid_line", "backslash_at_end", "unterminated_brace", "nested_call_depth3", "result_hits_limit", "tilde_inside_quotes", "big_directory", "dirscan_listing_modelled", "dirscan_listing_over_limit", "cut_result_is_a_prefix",
+             probes=["value_checked", "value_dont_care", "dollar_mid_line", "backslash_at_end", "unterminated_brace", "nested_call_depth3", "result_hits_limit", "tilde_inside_quotes", "big_directory", "dirscan_listing_modelled", "dirscan_listing_over_limit", "cut_result_is_a_prefix",
                      "random_picked_another_word", "dirscan_no_directory"]),
     "C11": P(["asan", "asanz"], 30, 900,
              "plans = 1..4 init/register/parse/free cycles; files are arbitrary byte strings or metacharacter-rich config text (NULs, lines of 20470..20482 and 41000 bytes, missing final newline, "
@@ -32,7 +32,7 @@ PROPS = {
              "spifconf_find_file with file/dir/pathlist strings up to 40000 bytes, spiftool_temp_file under a libc that creates with 0600 or 0666&~umask, direct expansions up to the 20 kB limit; "
              "oracle = ASan/allocator verdict, step and CPU budgets, spawn census, temp-file mode/uniqueness census, allocator ledger at spifconf_free_subsystem, equal handler traces for repeated cycles; "
              "Since rounds 10-12: wrong-arity built-ins, the %name ) spelling, directives without argument, variables deleted from the middle of the list, fdopen()/fchmod() refusals per cycle, registrations between parses, more than 255 built-ins/contexts (must be refused). distinct = distinct trace hash; non-trivial = >= 3 ops",
-             probes=["fdopen_failed", "fchmod_failed", "lifecycle_cycle_completed", "repeated_cycle_compared", "builtin_table_grew", "empty_file", "nul_in_file", "line_over_limit", "line_near_limit", "contexts_crossed_160",
+             probes=["lifecycle_cycle_completed", "repeated_cycle_compared", "builtin_table_grew", "empty_file", "nul_in_file", "line_over_limit", "line_near_limit", "contexts_crossed_160",
                      "spawn_by_directive", "vars_defined", "second_cycle_uses_vars", "find_file_found", "path_component_over_limits", "temp_file_created", "big_directory"]),
     "C09": P(["plain", "plainz"], 30, 900,
              "plans = a simulated file tree (root + include files, include chains up to 200 deep, files without magic, missing files, empty files, directories and files that open but cannot be read) over the line grammar "
@@ -115,7 +115,7 @@ PROPS = {
              "plans = fault-script sweep (all scripts over {FULL,SHORT,EINTR}^<=3 on the first reads and {FULL,SHORT,EINTR,EAGAIN}^<=3 on the first writes x 8 payload sizes from 5 to 20000 bytes incl. exact multiples of the 4096-byte chunk) "
              "followed by seeded lifecycles of 1 server + 1..3 client tasks with per-call fault scripts (socket/bind/listen/connect/accept/read/write/close outcomes), listeners on taken addresses, open retries and seeded schedules; "
              "Since rounds 10-11: the sweep has three passes (A: scripts of length <= 3 with a receive queue that holds everything; B: the same with a 1 kB queue; C: all scripts of length 4), EINTR/EAGAIN faults may be bursts of 2..130 identical answers. distinct = distinct trace hash (every simulated call outcome and scheduling decision is hashed); non-trivial = plan has >= 3 operations",
-             probes=["done_object_kept", "descriptors_numbered_from_zero", "select_interrupted", "fault_burst", "sweep_plan", "accept_ok", "send_true", "recv_over_4096", "dup_ok", "open_failed", "accept_failed", "run_ended_blocked", "run_completed",
+             probes=["done_object_kept", "descriptors_numbered_from_zero", "fault_burst", "sweep_plan", "accept_ok", "send_true", "recv_over_4096", "dup_ok", "open_failed", "accept_failed", "run_ended_blocked", "run_completed",
                      "recv_ended_at_eof", "recv_ended_on_error", "send_partially_delivered", "natural_eagain_on_write"]),
     "T00": P(["asan"], 3, 10, "selftest: random allocator traffic; distinct = distinct trace hash among runs with >= 3 ops"),
 }
